@@ -3,6 +3,7 @@ From Coq Require Import List String Ascii ZArith. Import ListNotations.
 From Coq Require Import List Bool.
 From SV Require Import Lib.Str Model.Types Model.Api Model.Back Model.Doc Proofs.GenProofs Proofs.DocProofs.
 From SV Require Import Model.Api Model.FrontSmall Model.View Model.Front Model.DocTypes Model.DocSections Proofs.FrontProofs Proofs.DocSectionsProofs.
+From SV Require Import Model.Naming Spec.Markers Proofs.MarkerProofs Proofs.ClassMarkerProofs.
 
 (* line for line: the comment body is the first line of the (newline-stripped) description followed by every further
    line behind the comment decoration, blank lines included *)
@@ -69,6 +70,41 @@ Theorem C13_param_doc_last_match : forall st gd pname ms lastp,
   matching true gd pname = ms ++ [lastp] ->
   pd_desc (param_doc st false None (Some gd) false pname) = strip_nl (di_desc lastp).
 Proof. exact param_doc_last_match. Qed.
+(* GENERATOR SIDE: the comment in front of a declaration is built from THAT declaration's documentation, whatever was rendered
+   before it (the same lemmas that settle the marker blocks of C20): the text of a function / method written here is its marker
+   block, then sds_docstring of its own description, examples, parameters and result entries, then its signature; the text of a
+   class is sds_docstring of its own description, examples and constructor parameters, then its header; every written attribute
+   line carries sds_docstring of its own description *)
+Theorem C13_function_comment_is_its_own : forall classes rmap nc f indent is_method in_rx s x s',
+  function_string classes rmap nc f indent is_method in_rx s = Ok (x, s') ->
+  (if negb is_method && negb in_rx then shorter_reexport (f_name f) (f_reexported_by f) s else None) = None ->
+  g_todos s = [] ->
+  exists L params tvi rs,
+    NoDup L /\ covers (func_marks nc (g_class_generics s) is_method f) L /\ g_todos s' = [] /\
+    x = todo_text indent L ++
+        sds_docstring nc (d_desc (f_doc f)) (d_examples (f_doc f)) (Some (f_params f)) (Some (f_rdocs f)) indent ++
+        indent ++ K"@Pure" ++ NL ++
+        (match fst (emit_name nc false (f_name f)) with None => [] | Some n => indent ++ name_annotation n ++ NL end) ++
+        indent ++ (if f_classm f || f_static f then K"static " else []) ++ K"fun " ++ snd (emit_name nc false (f_name f)) ++
+        tvi ++ K"(" ++ params ++ K")" ++ rs.
+Proof. exact function_string_markers. Qed.
+Theorem C13_class_comment_is_its_own : forall classes rmap nc fu c indent rx s x s',
+  class_string classes rmap nc (S fu) c indent rx s = Ok (x, s') ->
+  (if negb rx then shorter_reexport (c_name c) (c_reexported_by c) s else None) = None ->
+  clean s ->
+  exists Lsig variance ctor_info body,
+    NoDup Lsig /\ covers (class_sig_marks c) Lsig /\ clean s' /\
+    x = sds_docstring nc (d_desc (c_doc c)) (d_examples (c_doc c))
+                      (Some (match c_ctor c with Some k => f_params k | None => [] end)) None indent ++
+        ((match fst (emit_name nc true (c_name c)) with None => [] | Some n => indent ++ name_annotation n ++ NL end) ++ indent ++
+         todo_text indent Lsig ++ todo_text indent (class_inheritance_marks c) ++
+         K"class " ++ snd (emit_name nc true (c_name c)) ++ variance ++ ctor_info ++
+         (match class_super_names c with [] => [] | _ => K" sub " ++ join (K", ") (class_super_names c) end)) ++ body.
+Proof. exact class_header_markers. Qed.
+Theorem C13_attribute_comment_is_its_own : forall classes rmap nc ats inner acc names s lines names' s',
+  class_attrs classes rmap nc ats inner acc names s = Ok ((lines, names'), s') -> g_todos s = [] ->
+  g_todos s' = [] /\ exists new, lines = acc ++ new /\ Forall2 (attr_line nc inner) (filter attr_rendered ats) new.
+Proof. exact class_attrs_markers. Qed.
 Print Assumptions C13_cache_transparent.
 Print Assumptions C13_cache_coherent.
 Print Assumptions C13_lookup_same_name_refuted.
@@ -82,3 +118,6 @@ Print Assumptions C13_description_intact.
 Print Assumptions C13_general_doc_description.
 Print Assumptions C13_matching_ignores_stars.
 Print Assumptions C13_param_doc_last_match.
+Print Assumptions C13_function_comment_is_its_own.
+Print Assumptions C13_class_comment_is_its_own.
+Print Assumptions C13_attribute_comment_is_its_own.
